@@ -294,6 +294,8 @@ def Sess.withTx (S : Suite) (s : Sess) (now ssrc : Nat) (f : Ctx → Except Err 
     let (r, c') := f { c with lastUsed := now }
     (r, { s with tx := replace t c' })
   | none =>
+    -- `refuse_new_tx_context_if_full`: the idle contexts have just been evicted, what is left is live
+    if maxTxContexts ≤ t.length then (.error .internal, { s with tx := t }) else
     match Ctx.new S ssrc s.profile s.txMk s.txMs now with
     | .error e => (.error e, { s with tx := t })
     | .ok c =>
